@@ -610,6 +610,13 @@ class World:
                     world.tick("post_copy", "M")
 
                 ns["__post_copy__"] = __post_copy__
+            if c.get("user_new"):
+                def __new__(cls, *args, **kwargs):
+                    inst = object.__new__(cls)
+                    object.__setattr__(inst, "made_by_user_new", True)
+                    return inst
+
+                ns["__new__"] = __new__
             if c.get("helper_method"):
                 def helper(self):
                     return 1
